@@ -1390,7 +1390,12 @@ DV_GEO_STYLES = {
                                                                   state_vector=x),
     "mixed": lambda E, x: E.geometric_entanglement(x, True, product_state_with_factors=True),
     "numpy-bool": lambda E, x: E.geometric_entanglement(x, np.True_, np.bool_(True)),
+    "numpy-bool-keyword": lambda E, x: E.geometric_entanglement(x, product_state_with_factors=np.True_, return_product_state=np.bool_(True)),
+    "int": lambda E, x: E.geometric_entanglement(x, 1, 1),
+    "int-keyword": lambda E, x: E.geometric_entanglement(x, return_product_state=1, product_state_with_factors=1),
+    "int-numpy-bool-mixed": lambda E, x: E.geometric_entanglement(x, 1, product_state_with_factors=np.True_),
 }
+DV_GEO_FLAGFORMS = {"numpy-bool": "np.bool_", "numpy-bool-keyword": "np.bool_", "int": "int", "int-keyword": "int", "int-numpy-bool-mixed": "int+np.bool_"}
 DV_GEO_STYLE_ORDER = list(DV_GEO_STYLES)
 
 
@@ -1410,6 +1415,10 @@ def _dv_geo_case(ctx, n, form, sname, raw, info, seed, style="positional", tie=F
     ctx.count(f"diversity:geo:n={n}")
     ctx.count("diversity:geo:state=" + _dv_family(sname))
     ctx.count("diversity:geo:call=" + style)
+    if style in DV_GEO_FLAGFORMS:
+        for opt_ in ("return_product_state", "product_state_with_factors"):
+            ctx.count(f"flagforms:{opt_}:{DV_GEO_FLAGFORMS[style]}")
+            ctx.count(f"flagforms:{opt_}:{DV_GEO_FLAGFORMS[style]}:True:via {'keyword' if 'keyword' in style else 'positional'}:n={n}")
     rec = []
     orig = E.tucker
 
@@ -1496,11 +1505,31 @@ def _diversity_geo_callforms(ctx, n, form, sname, raw, seed):
         ("kw-all-swapped", 3, lambda: g(product_state_with_factors=True, state_vector=raw, return_product_state=True)),
         ("numpy-bool-T-T", 3, lambda: g(raw, np.True_, np.True_)),
         ("numpy-bool-F-F", 1, lambda: g(raw, np.False_, np.False_)),
+        # every combination of the two flags as numpy.bool_ and as int 1 / 0, positional and by keyword (the documented return
+        # shape is decided by their truth values: float / (measure, state) / (measure, state, factors))
+        ("numpy-bool-T-F", 2, lambda: g(raw, np.True_, np.False_)),
+        ("numpy-bool-F-T", 1, lambda: g(raw, np.False_, np.True_)),
+        ("numpy-bool-kw-T-T", 3, lambda: g(raw, return_product_state=np.bool_(True), product_state_with_factors=np.bool_(True))),
+        ("numpy-bool-kw-T", 2, lambda: g(raw, return_product_state=np.True_)),
+        ("numpy-bool-kw-T-F-swapped", 2, lambda: g(raw, product_state_with_factors=np.False_, return_product_state=np.True_)),
+        ("int-T-T", 3, lambda: g(raw, 1, 1)),
+        ("int-T-F", 2, lambda: g(raw, 1, 0)),
+        ("int-F-T", 1, lambda: g(raw, 0, 1)),
+        ("int-F-F", 1, lambda: g(raw, 0, 0)),
+        ("int-kw-T-T", 3, lambda: g(raw, return_product_state=1, product_state_with_factors=1)),
+        ("int-kw-T-F-swapped", 2, lambda: g(raw, product_state_with_factors=0, return_product_state=1)),
+        ("int-kw-F", 1, lambda: g(raw, return_product_state=0)),
+        ("mixed-forms-T-T", 3, lambda: g(raw, np.True_, product_state_with_factors=1)),
+        ("mixed-forms-T-F", 2, lambda: g(raw, 1, np.False_)),
     ]
     rp = _dv_payload("geo-callforms", form, sname, n, vec, {}, seed=seed)
     ref = None
     for cname, arity, fn in calls:
         ctx.count("diversity:geo:callform=" + cname)
+        if cname.startswith(("numpy-bool", "int-", "mixed-forms")):
+            ff = "np.bool_" if cname.startswith("numpy") else "int" if cname.startswith("int") else "int+np.bool_"
+            ctx.count(f"flagforms:return_product_state/product_state_with_factors:{ff}")
+            ctx.count(f"flagforms:return_product_state/product_state_with_factors:{ff}:{cname.split('-', 2)[-1] if not cname.startswith('mixed') else cname[12:]}:n={n}")
         key = f"dv.geo.callform:{cname}:{form}:{sname}:n={n}"
         np.random.seed(seed)
         try:
@@ -1658,9 +1687,10 @@ def run_sizes(ctx, ns_mw, ns_geo, reps, mwq_ns, mwf_ns, qreps=1):
 
 def run(ctx):
     if ctx.quick:
-        run_sizes(ctx, ns_mw=range(2, 8), ns_geo=range(2, 8), reps=2, mwq_ns=range(1, 7), mwf_ns=range(1, 8))
+        # Meyer-Wallach up to 9 qubits (half vectors of 128 / 256 entries: beyond any small-size fast path), geometric to 7
+        run_sizes(ctx, ns_mw=range(2, 10), ns_geo=range(2, 8), reps=2, mwq_ns=range(1, 7), mwf_ns=range(1, 8))
     else:
-        run_sizes(ctx, ns_mw=range(2, 9), ns_geo=range(2, 9), reps=8, mwq_ns=range(1, 9), mwf_ns=range(1, 9), qreps=4)
+        run_sizes(ctx, ns_mw=range(2, 11), ns_geo=range(2, 9), reps=8, mwq_ns=range(1, 9), mwf_ns=range(1, 9), qreps=4)
 
 
 def search(ctx, hints):
